@@ -152,6 +152,7 @@ pub fn default_cfg(rng: &mut Rng, scn: &Scenario) -> RunCfg {
         flush_subscriptions: rng.chance(1, 6),
         io_signatures_only: false,
         keep_session_after_error: false,
+        no_effect_backend: false,
     }
 }
 
@@ -162,6 +163,7 @@ pub fn reference_spec(scn: &Scenario, seed: u64) -> RunSpec {
     // (a property of the scenario, not of the sampled configuration: which host the program runs in)
     cfg.io_signatures_only = scn.family == "c15-HostlessIo";
     cfg.keep_session_after_error = scn.family == "c15-repl-kept-session";
+    cfg.no_effect_backend = scn.family == "c15-NoBackendIo";
     RunSpec { cfg, ops: scn.ops.clone(), modules: scn.modules.clone(), sched: SchedSpec::fair(), seed, replay: None, est_len: 100, tail_bound: 0, tail_from: None }
 }
 
